@@ -373,7 +373,12 @@ func (l *MultiplexingListener) IngressConn(conn net.Conn, err error) {
 	l.closedMutex.RLock()
 	defer l.closedMutex.RUnlock()
 	if l.closed {
-		conn.Close()
+		// The values are passed through as-is, so conn may be nil (e.g. when
+		// an error from another listener is being handed along); there is
+		// nothing to close in that case
+		if conn != nil {
+			conn.Close()
+		}
 		return
 	}
 	l.incoming <- splitConn{conn: conn, err: err}
